@@ -9,7 +9,7 @@ HOOKS = {
 }
 
 ENGINES = [
-    {'name': 'E1 kani-step', 'path': '/verif/kani', 'serves_properties': ['C01', 'C02', 'C03', 'C04', 'C05', 'C07', 'C10', 'C11', 'C12', 'C13', 'C18', 'C19'],
+    {'name': 'E1 kani-step', 'path': '/verif/kani', 'serves_properties': ['C01', 'C02', 'C03', 'C04', 'C05', 'C07', 'C10', 'C11', 'C12', 'C13', 'C16', 'C18', 'C19'],
      'kind_free_text': 'Kani 0.68 / CBMC 6.11 bounded model checking of the real planner/executor functions from symbolic pre-states of concrete shape; counterexamples extracted with concrete playback and replayed natively (/verif/replay) on the real dependency set'},
     {'name': 'E2 mir-smt', 'path': '/verif/mir', 'serves_properties': ['C01', 'C02', 'C03', 'C04', 'C05', 'C06', 'C07', 'C08', 'C09', 'C11', 'C12', 'C13', 'C16', 'C17', 'C18', 'C19', 'C20'],
      'kind_free_text': 'symbolic execution of the nightly MIR dump of the current tree into SMT (z3, cvc5 cross-check) for loop-free generic glue code, parametric in the type parameters'},
@@ -20,7 +20,7 @@ KANI_NOTE = ('Trusted: Kani/CBMC/CaDiCaL; Vec-backed contract models of smallvec
              'Bounded: only the listed shapes/resources/dependency patterns; unwinding assertions on.')
 
 MIR_NOTE = ('Trusted: rustc nightly -Zunpretty=mir (debug-assertions off) as the semantics of the source, the MIR interpreter of vlib/mir.py (unknown constructs abort with INCONCLUSIVE), z3 (every verdict re-decided by cvc5). '
-            'Callees that are type parameters / third-party code are uninterpreted; loops unrolled 3 times.')
+            'Callees that are type parameters / third-party code are uninterpreted; loops unrolled 3 times. A function whose body differs from the reviewed baseline (mir/baseline) but whose canonical summary (vlib/canon.py) equals the baseline\'s is judged on the baseline body.')
 BOTH_NOTE = KANI_NOTE + ' ' + MIR_NOTE
 
 STEP_T = 'bounded model checking (Kani/CBMC) of one inductive planner step from a symbolic pre-state'
@@ -38,11 +38,11 @@ CHECKS = {
     'C02': chk('E1 kani-step', 'model_checking', 'DESIGN.md §4 C02', STEP_T + '; ' + EXEC_T + '; ' + MIR_T,
                'Step: every dependency of the new system sits in a strictly earlier stage or earlier in the very group it joins (0,1,2 distinct,2 equal dependencies; also in front of a barrier). Executor: stage order and in-group order are the run order. E2: DispatcherBuilder::add hands exactly the ids stored under the dependency names to insert and resolves them before the new name is recorded.', BOTH_NOTE),
     'C03': chk('E1 kani-step', 'model_checking', 'DESIGN.md §4 C03', STEP_T + '; ' + MIR_T,
-               'For every table state of the listed shapes and every new system the real insertion_target never answers with a stage in front of the barrier index; E2: add_barrier sets the index to the current number of stages and the builder-level add_barrier forwards unconditionally. By induction max stage(pre-barrier) < min stage(post-barrier); the executor part shows stages never overlap.', BOTH_NOTE),
+               'For every table state of the listed shapes and every new system the real insertion_target never answers with a stage in front of the barrier index; E2: the stage search runs over the literal range barrier..number_of_stages, add_barrier sets the index to the current number of stages and the builder-level add_barrier forwards unconditionally. By induction max stage(pre-barrier) < min stage(post-barrier); the executor part shows stages never overlap.', BOTH_NOTE),
     'C04': chk('E1 kani-exec', 'model_checking', 'DESIGN.md §4 C04', EXEC_T + '; ' + MIR_T,
                'Executor harness: on every listed layout (incl. a full group of 5, three stages, thread-local systems, a batch with 0/1/2 inner dispatches) every system runs exactly once per dispatch call of every kind, for two successive calls; the rayon contract (each job once) is the stated assumption. Commit harness: one insert adds exactly one id and one boxed system to the same slot. E2: the fan-out functions are "one call per item, nothing else" for 0..3 items, MultiDispatcher::run dispatches exactly plan() times.', BOTH_NOTE),
-    'C05': chk('E1 kani-exec', 'model_checking', 'DESIGN.md §4 C05', EXEC_T,
-               'REDUCED claim: on the same built dispatcher the partial order induced by dispatch_par under the rayon contract and the total order of dispatch_seq agree on every pair that is not "same region, different job", and those pairs are the non-conflicting ones by C01. Not decided: commutation of non-conflicting steps on the real World under real interleavings.', KANI_NOTE),
+    'C05': chk('E1 kani-exec', 'model_checking', 'DESIGN.md §4 C05', EXEC_T + '; ' + STEP_T + '; ' + MIR_T,
+               'REDUCED claim: on the same built dispatcher the partial order induced by dispatch_par under the rayon contract and the total order of dispatch_seq agree on every pair that is not "same region, different job", and those pairs are the non-conflicting ones by C01. The isolation premise is re-checked (planner step fleet, commit part of insert); without `parallel`, dispatch is dispatch_seq and the placement code is byte-identical. Not decided: commutation of non-conflicting steps on the real World under real interleavings.', BOTH_NOTE),
     'C06': chk('E2 mir-smt', 'other', 'DESIGN.md §4 C06', MIR_T,
                'For all 26 tuple impls x setup/fetch/reads/writes, Read/Write/Option forms, unit, PhantomData, StaticAccessor, the blanket DynamicSystemData, the setup handlers and 7 derive samples (named, tuple, extra lifetimes, generics+where, nesting 3): reads/writes are exactly the concatenation of the members\' (z3 sequence equality), fetch/setup call every member exactly once on the caller\'s world and store member i at field i; leaves borrow exactly the cell of T shared resp. exclusive. Parametric in the member types: holds for every composition.', MIR_NOTE),
     'C07': chk('E2 mir-smt', 'other', 'DESIGN.md §4 C07', MIR_T,
@@ -64,12 +64,12 @@ CHECKS.update({
                'REDUCED claim (access-path logic): for try_fetch / try_fetch_mut the solver enumerates exactly three outcomes - lookup absent -> None, try_borrow(_mut) Err -> panic, Ok -> a guard that owns exactly that borrow of the cell looked up under ResourceId::new::<T>(), shared resp. exclusive; the by-id forms check the type id first, look up under that id, and on a present resource take the panicking borrow()/borrow_mut(); fetch/fetch_mut panic when absent; Fetch::clone is one more shared borrow; the guards have no Drop impl of their own; the meta iterators borrow through the cell. The shared-xor-exclusive state machine itself is atomic_refcell\'s (assumed).', MIR_NOTE),
     'C09': chk('E2 mir-smt', 'other', 'DESIGN.md §4 C09', MIR_T,
                'REDUCED claim: assert_same_type_id returns iff the type id of R equals the type id of the id passed (two outcomes, no other branch); insert_by_id / remove_by_id / try_fetch(_mut)_by_id call it first and access the map under that very id, so a mismatching call panics before the world is touched; insert/remove/has_value/entry/get_mut use ResourceId::new of their own type argument, so a value of type R only ever sits under R\'s id (precondition of the unchecked downcasts). Map laws are std HashMap\'s (assumed).', MIR_NOTE),
-    'C16': chk('E2 mir-smt', 'other', 'DESIGN.md §4 C16', MIR_T,
-               'For all H, T (uninterpreted): Seq::run = head.run then tail.run; Par::run = exactly one join of (head job, tail job) (pool.join from outside the pool, plain join inside), each job runs its child once on the same world and pool; reads/writes/setup of both node kinds reach head then tail; with()/new() keep every child; leaves forward to the accessor and run_now. By structural induction: every tree shape. Par::with in a debug-assertions build (separate MIR dump): returns iff none of node-W/child-R, node-W/child-W, node-R/child-W intersects, panics otherwise.', MIR_NOTE),
+    'C16': chk('E2 mir-smt', 'other', 'DESIGN.md §4 C16', MIR_T + '; bounded model checking (Kani/CBMC) of Par::with and of a tree run',
+               'For all H, T (uninterpreted): Seq::run = head.run then tail.run; Par::run = exactly one join of (head job, tail job) (pool.join from outside the pool, plain join inside), each job runs its child once on the same world and pool; reads/writes/setup of both node kinds reach head then tail; with()/new() keep every child; leaves forward to the accessor and run_now. By structural induction: every tree shape. Par::with in a debug-assertions build (separate MIR dump): returns iff none of node-W/child-R, node-W/child-W, node-R/child-W intersects, panics otherwise. E1 (Kani): Par::with with symbolic leaf access sets panics iff the new child conflicts (two harness families), and a seq/par tree runs every leaf once in seq order with par children in distinct jobs on the rayon contract model.', BOTH_NOTE),
     'C17': chk('E2 mir-smt', 'other', 'DESIGN.md §4 C17', MIR_T,
                'REDUCED claim: register: new type -> index := old size, vtable_fns and tys grow by one (attach_vtable::<T,R>, TypeId of R); known type -> nothing grows, the function at the stored index is replaced. get/get_mut: Some iff the index map has the dynamic type id, the function stored at that index is applied to the address of that resource. attach_vtable returns iff the cast preserved the address, else panics. MetaIter(Mut)::next walks tys in order from self.index, skips absent types, borrows shared resp. exclusive and uses the vtable function stored at the index of the type id just read.', MIR_NOTE),
     'C19': chk('E1 kani-step', 'model_checking', 'DESIGN.md §4 C19', 'relational bounded model checking (Kani/CBMC) of insertion_target under a solver-chosen resource permutation; ' + MIR_T,
-               'Relational harness: two table states of the same shape related by a solver-chosen permutation of the 6 resource ids (across both static types and the dynamic ids), with solver-chosen orders of the 2-element read/write lists, get the same target from the real insertion_target. Commit harness + E2: insert stores exactly the declared ids (sort/dedup only) and DispatcherBuilder::add hands only ids, never names, to the planner. No source of nondeterminism is reachable from placement.', BOTH_NOTE),
+               'Relational harness: two table states of the same shape related by a solver-chosen permutation of the 6 resource ids (across both static types and the dynamic ids), with solver-chosen orders of the 2-element read/write lists, get the same target from the real insertion_target. Commit harness + E2: insert stores exactly the declared ids (sort/dedup only) and DispatcherBuilder::add hands only ids, never names, to the planner. The MIR bodies of the placement functions are identical with and without the `parallel` feature. No source of nondeterminism is reachable from placement.', BOTH_NOTE),
     'C20': chk('E2 mir-smt', 'other', 'DESIGN.md §4 C20', MIR_T,
                'REDUCED claim: write_par_seq has no panicking path of its own and does not unwrap the name lookup; it walks self.ids stage by stage, group by group, system by system (each inner loop iterates the item just yielded), looks every system up once, prints a named system as its name with space/dash/slash replaced and an unnamed one as a placeholder, one line per system plus two bracket lines per stage/group/plan; Debug for the builder prints its own tables with its own name map. That ids and the executed list are in lock-step is C04.', MIR_NOTE),
 })
